@@ -671,6 +671,19 @@ example : ((nrunF Cfg.repaired tFine.fine [([], .start), ([0], .start), ([0], .c
     ([0], .exit), ([], .cbFirst 0), ([], .cbSecond 0), ([], .exit)]).map fun t =>
     (t.core.over, (raised t.core).map (fun e => (e.root, e.depth)))) = some (true, some (some 0, 2)) := by decide
 
+/-! ### the recovery save can fail -/
+
+/-- guarded: whatever the recovery save does, the caller gets what the run itself ended with -/
+theorem C06_recovery_failure_keeps_original (saveFails : Bool) (saveErr : E) (c : Cycle E) :
+    (withSave true saveFails saveErr c).ret = c.ret ∧ (withSave true saveFails saveErr c).failed = c.failed ∧
+    (withSave true saveFails saveErr c).running = c.running := by
+  unfold withSave; split <;> simp
+
+/-- unguarded (the tree as found): the pickling error of the recovery save replaces the run's own exception `7` -/
+theorem C06_recovery_failure_pinned_witness :
+    (withSave false true 99 (runCycle false false false false true (some 7))).ret = .raised 99 ∧
+    (withSave true true 99 (runCycle false false false false true (some 7))).ret = .raised 7 := by decide
+
 section Fine
 open PwVerif.ExecFine
 
@@ -1065,6 +1078,34 @@ example : (flowRun true (fun i => { kind := .term i, slots := [], useCache := fa
       (fun i _ => 100 + i) (fun i => 200 + i) (chainGraph [0, 1, 2]) 10 Store.init (fun _ => [])).store.book =
       .failedChild (some 101) := by decide
 
+/-! ### parentless nodes wired by hand: a push is a tree of nested calls -/
+
+/-- PROPAGATION: `run()` of a parentless node, through ANY hand-made signal graph (branches, cycles, `If`s), any child
+table, any depth (fuel): the calls only append to the log; if no exception comes out, no `run()` in the whole nested
+tree raised; if one comes out, it is the exception of a logged run that raised — nothing is lost on the way up through
+the epilogues, nothing invented -/
+theorem C06_push_propagates (nodes : Nat → Node) (g : Graph) (exc : Nat → Nat → E) (refusal : Nat → E) (fuel : Nat)
+    (ps : PState) (i : Nat) :
+    ∃ added, (push false nodes g exc refusal fuel ps i).1.log = ps.log ++ added ∧
+      ((push false nodes g exc refusal fuel ps i).2 = none → ∀ en ∈ added, en.raised = false) ∧
+      (∀ e, (push false nodes g exc refusal fuel ps i).2 = some e →
+        ∃ en ∈ added, en.raised = true ∧ ((∃ k, e = exc en.child k) ∨ e = refusal en.child)) :=
+  push_spec nodes g exc refusal fuel ps i
+
+/-! `load >> scale >> report`, `scale` raises: the caller of `load.run()` gets `scale`'s exception and `report` is not
+run; with an epilogue that swallows what happens inside it the caller gets nothing. -/
+def pNodes : Nat → Node := fun i =>
+  { kind := .term i, slots := [], useCache := false, failAt := if i = 1 then [1] else [] }
+def pGraph : FinGraph :=
+  { conns := [[⟨1, false⟩], [], [], [], [⟨2, false⟩]], accConns := [], labs := [0, 1, 2, 3, 4], starters := [] }
+def pPush (swallow : Bool) : PState × Option Nat :=
+  push swallow pNodes pGraph.toGraph (fun i _ => 100 + i) (fun i => 200 + i) 10 { st := Store.init, log := [] } 0
+
+theorem C06_push_swallow_witness :
+    (pPush false).2 = some 101 ∧ (pPush false).1.log.map (fun en => (en.child, en.raised)) = [(0, false), (1, true)] ∧
+    (pPush true).2 = none ∧ (pPush true).1.log.map (fun en => (en.child, en.raised)) = [(0, false), (1, true)] := by
+  decide
+
 end PwVerif.C06
 
 
@@ -1204,3 +1245,7 @@ end PwVerif.C06
 #print axioms PwVerif.C06.C06_flow_hit_not_blamed
 #print axioms PwVerif.C06.C06_flow_direct_hit_witness
 #print axioms PwVerif.C06.C06_pull_contained
+#print axioms PwVerif.C06.C06_recovery_failure_keeps_original
+#print axioms PwVerif.C06.C06_recovery_failure_pinned_witness
+#print axioms PwVerif.C06.C06_push_propagates
+#print axioms PwVerif.C06.C06_push_swallow_witness
